@@ -502,3 +502,145 @@ Definition mkcfg (tr : list (N * rtrig)) (fm cl : bool) (gd : Z) (thr rs re : N)
   {| trig_of := assoc notrig tr; fmode_in := fm; caller_filter := cl; gdepth := gd; threshold := thr;
      range_start := rs; range_stop := re; is_plt := fun k => existsb (fun x => (x =? k)%N) plt;
      libcall := lc; no_merge := nm |}.
+
+(* ------------------------------------------------------------------ several tasks *)
+(* Every task has its own data file, look-ahead list (get_task_ustack) and filter state; the commands read
+   the records of all tasks merged by timestamp (read_user_stack: strictly smaller time wins, so the
+   lowest task index wins ties); fstack_enabled (trace_on / trace_off) is ONE global flag. *)
+Definition trec := (nat * rec)%type.                 (* task index, record *)
+
+(* index of the stream whose first record is the oldest *)
+Fixpoint pick_from (ss : list (list rec)) (i : nat) (best : option (nat * N)) : option (nat * N) :=
+  match ss with
+  | [] => best
+  | s :: rest =>
+      let best' := match s with
+                   | [] => best
+                   | r :: _ => match best with
+                               | None => Some (i, r_time r)
+                               | Some (_, tb) => if (r_time r <? tb)%N then Some (i, r_time r) else best
+                               end
+                   end in
+      pick_from rest (S i) best'
+  end.
+Fixpoint drop_head (ss : list (list rec)) (i : nat) : list (list rec) :=
+  match ss, i with
+  | [], _ => []
+  | s :: rest, O => tl s :: rest
+  | s :: rest, S j => s :: drop_head rest j
+  end.
+Fixpoint merge (fuel : nat) (ss : list (list rec)) : list trec :=
+  match fuel with
+  | O => []
+  | S fu =>
+      match pick_from ss 0 None with
+      | None => []
+      | Some (i, _) =>
+          match nth i ss [] with
+          | [] => []
+          | r :: _ => (i, r) :: merge fu (drop_head ss i)
+          end
+      end
+  end.
+Definition total_len (ss : list (list rec)) : nat := fold_right (fun s n => (length s + n)%nat) 0%nat ss.
+Definition merged (c : cfg) (ss : list (list rec)) : list trec :=
+  let ps := map (pre c) ss in merge (total_len ps) ps.
+
+Record mst := { m_tasks : list st; m_enabled : bool }.
+Definition with_enabled (s : st) (b : bool) : st :=
+  {| below := below s; above := above s; inc := inc s; outc := outc s; fdepth := fdepth s; enabled := b;
+     disp := disp s; disp_set := disp_set s; started := started s |}.
+Fixpoint upd {A} (i : nat) (v : A) (l : list A) : list A :=
+  match l, i with
+  | [], _ => []
+  | _ :: r, O => v :: r
+  | x :: r, S j => x :: upd j v r
+  end.
+Definition m_init (c : cfg) (n : nat) : mst := {| m_tasks := repeat (st0 c) n; m_enabled := true |}.
+Definition task_of (c : cfg) (m : mst) (t : nat) : st := with_enabled (nth t (m_tasks m) (st0 c)) (m_enabled m).
+Definition put_task (m : mst) (t : nat) (s : st) : mst := {| m_tasks := upd t s (m_tasks m); m_enabled := enabled s |}.
+
+Definition tev := (nat * vev)%type.
+Definition m_std_step (c : cfg) (m : mst) (tr : trec) : mst * list tev :=
+  let '(t, r) := tr in
+  let '(s', o) := std_step c (task_of c m t) r in (put_task m t s', map (pair t) o).
+
+Fixpoint m_run {S} (step : S -> trec -> S * list tev) (s : S) (trs : list trec) : S * list tev :=
+  match trs with
+  | [] => (s, [])
+  | x :: r => let '(s1, o1) := step s x in let '(s2, o2) := m_run step s1 r in (s2, o1 ++ o2)
+  end.
+
+Definition run_std_m (c : cfg) (ss : list (list rec)) : list tev :=
+  snd (m_run (m_std_step c) (m_init c (length ss)) (merged c ss)).
+
+(* dump --chrome: after the last record the open calls of every task are closed, task by task *)
+Definition last_time (rs : list rec) : N := r_time (last rs {| r_time := 0; r_type := EXIT; r_depth := 0; r_fn := 0 |}).
+Definition run_chrome_m (c : cfg) (ss : list (list rec)) : list tev :=
+  let '(m, o) := m_run (m_std_step c) (m_init c (length ss)) (merged c ss) in
+  o ++ flat_map (fun t => map (pair t) (chrome_close c (task_of c m t) (last_time (pre c (nth t ss [])))))
+                (seq 0 (length ss)).
+Definition remaining_m (c : cfg) (ss : list (list rec)) : list N :=
+  let m := fst (m_run (m_std_step c) (m_init c (length ss)) (merged c ss)) in
+  flat_map (fun s => map sl_fn (below s)) (m_tasks m).
+
+(* dump (raw): one data file after the other, not merged; the global flag is carried over *)
+Definition run_raw_m (c : cfg) (ss : list (list rec)) : list tev :=
+  snd (fold_left (fun (acc : bool * nat * list tev) rs =>
+                    let '(en, t, out) := acc in
+                    let '(s, o) := run_steps (raw_step c) (with_enabled (st0 c) en) rs in
+                    (enabled s, S t, out ++ map (pair t) o))
+                 ss (true, 0%nat, [])).
+
+(* replay / script over several tasks: fstack_skip() peeks at the globally next record *)
+Inductive mmode := MNormal | MSkipping (t : nat) (e : rec) (d : Z).
+Definition lift_mode (t : nat) (m : mode) : mmode :=
+  match m with Normal => MNormal | Skipping e d => MSkipping t e d end.
+
+Definition m_rp_normal (c : cfg) (m : mst) (t : nat) (r : rec) : (mst * mmode) * list tev :=
+  let '((s', md), o) := rp_normal c (task_of c m t) r in ((put_task m t s', lift_mode t md), map (pair t) o).
+
+Definition m_rp_step (c : cfg) (mm : mst * mmode) (tr : trec) : (mst * mmode) * list tev :=
+  let '(m, md) := mm in
+  let '(t, r) := tr in
+  match md with
+  | MNormal => m_rp_normal c m t r
+  | MSkipping te e d =>
+      let pend := (te, mkev false e d) in
+      let print_pending (m0 : mst) : mst := put_task m0 te (update_entry (task_of c m0 te)) in
+      let go_on :=                                     (* not a leaf: print the ENTRY, main loop reads r *)
+        let '(mm', o) := m_rp_normal c (print_pending m) t r in (mm', pend :: o) in
+      let swallow :=
+        let s1 := consume c (task_of c m t) r in
+        let s2 := match r_type r with ENTRY => fst (fstack_entry c s1 r) | EXIT => fstack_exit c s1 end in
+        let m2 := put_task m t s2 in
+        if enabled s2 then ((m2, MSkipping te e d), [])
+        else ((print_pending m2, MNormal), [pend]) in
+      if Nat.eqb t te && (r_depth r <=? r_depth e) then
+        match r_type r with
+        | EXIT =>
+            if r_depth r =? r_depth e
+            then ((put_task m t (fstack_exit c (consume c (task_of c m t) r)), MNormal), [pend; (t, mkev true r d)])
+            else go_on
+        | ENTRY => go_on
+        end
+      else if hidden_plt c (r_fn r) then swallow
+      else if check_skip c (task_of c m t) r >=? 0 then go_on
+      else swallow
+  end.
+Definition m_rp_finish (mm : mst * mmode) : list tev :=
+  match snd mm with MNormal => [] | MSkipping t e d => [(t, mkev false e d)] end.
+Definition run_rp_m (c : cfg) (ss : list (list rec)) : list tev :=
+  let '(mm, o) := m_run (m_rp_step c) (m_init c (length ss), MNormal) (merged c ss) in o ++ m_rp_finish mm.
+Definition run_script_m (c : cfg) (ss : list (list rec)) : list tev := run_rp_m (set_no_merge c true) ss.
+
+(* graph: one tree per session, every task keeps its own current node *)
+Fixpoint graph_build_m (evs : list (nat * (bool * N))) (paths : list (list N)) (kids : list gnode) : list gnode :=
+  match evs with
+  | [] => kids
+  | (t, (false, f)) :: r =>
+      let path := nth t paths [] in graph_build_m r (upd t (path ++ [f]) paths) (g_enter path f kids)
+  | (t, (true, _)) :: r => graph_build_m r (upd t (removelast (nth t paths [])) paths) kids
+  end.
+Definition graph_of_m (n : nat) (evs : list tev) : list (N * N * N) :=
+  flat_map (g_flat 0) (graph_build_m (map (fun p => (fst p, ob_n (snd p))) evs) (repeat [] n) []).
